@@ -120,7 +120,11 @@ def build(program, order, persist=True):
                 if v["oracle"] == "tables_conform" and op["op"] == "set":
                     v["oracle"] = "edge_param_confined"
         if persist and program.get("persist_after") is not None and pos == program["persist_after"] % max(1, len(order)):
-            m2 = faults.persist(w.m, program["persist_how"])
+            try:
+                m2 = faults.persist(w.m, program["persist_how"])
+            except faults.PersistFailed as e_:
+                w.violate("copy_equal", str(e_), i)
+                return w
             a, b = snap.snapshot(w.m), snap.snapshot(m2)
             if a != b:
                 w.violate("copy_equal", "copy mid-wiring differs: " + "; ".join(snap.diff(a, b)[:3]), i)
